@@ -172,6 +172,10 @@ func run(c *hc.Ctx) {
 			c.Count("skip-undecodable")
 			continue
 		}
+		overl := hc.OverlappingEdges(cp, cq)
+		if overl {
+			c.Count("input-with-overlapping-edges")
+		}
 		for _, op := range opNames {
 			c.Evals++
 			var R *canvas.Path
@@ -206,6 +210,9 @@ func run(c *hc.Ctx) {
 					if prefilterApplies(cp, cq) {
 						cls += "+prefilter"
 					}
+					if overl {
+						cls += "+overlapping-edges"
+					}
 					c.Fail("region:"+op+":"+cls, fmt.Sprintf("%s: point (%v,%v) expected filled=%v, result winding %d", op, pt.X, pt.Y, exp, wr),
 						map[string]any{"op": op, "P": P.String(), "Q": Q.String(), "R": R.String(), "point": []float64{pt.X, pt.Y}})
 					break
@@ -215,6 +222,13 @@ func run(c *hc.Ctx) {
 			kind := "region:" + op
 			if prefilterApplies(cp, cq) {
 				kind += " +prefilter"
+			}
+			if overl {
+				if strings.Contains(kind, " ") {
+					kind += "+overlapping-edges"
+				} else {
+					kind += " +overlapping-edges"
+				}
 			}
 			c.Case(line, "!", kind)
 			c.Count(fmt.Sprintf("op:%s class:%d", op, class))
@@ -233,6 +247,13 @@ func run(c *hc.Ctx) {
 						sk := "region-swapped:" + op
 						if prefilterApplies(cq, cp) {
 							sk += " +prefilter"
+						}
+						if overl {
+							if strings.Contains(sk, " ") {
+								sk += "+overlapping-edges"
+							} else {
+								sk += " +overlapping-edges"
+							}
 						}
 						c.Case(line, "!", sk)
 						c.Count("swapped:" + op)
